@@ -9,6 +9,84 @@ package keeper
 //@   ensures same_store: viewBranch(result) == branch(ctx) && viewSvc(result) == svcid(k.storeService)
 
 //@ contract (*Keeper).Route
+//@   pure
 //@   ensures allowed_type: err == nil ==> k.GetParams(ctx).IsAllowedClient(types.ParseClientIdentifier(clientID))
 //@   ensures parsed: err == nil ==> nth(types.ParseClientIdentifier(clientID), 2) == nil
 //@   ensures pure: world(ctx) == old(world(ctx))
+
+// ---- identifier generation (C15)
+
+//@ contract (*Keeper).GenerateClientIdentifier
+//@   let S0 = store(ctx)
+//@   let next = unbe64(get(S0, types.KeyNextClientSequence))
+//@   modifies world(ctx)
+//@   ensures id: result == clientType + "-" + dec(next)
+//@   ensures counter: store(ctx) == set(S0, types.KeyNextClientSequence, be64((next + 1) % 18446744073709551616))
+//@   ensures only_store: world(ctx) == withKV(old(world(ctx)), k.storeService, store(ctx))
+
+//@ contract (*Keeper).CreateClient
+//@   let S0 = store(ctx)
+//@   let next = unbe64(get(S0, types.KeyNextClientSequence))
+//@   let id = clientType + "-" + dec(next)
+//@   modifies world(ctx)
+//@   ensures fresh_id: err == nil ==> result0 == id
+//@   ensures counter_always_advances: clientType != exported.Localhost ==> get(store(ctx), types.KeyNextClientSequence) == be64((next + 1) % 18446744073709551616)
+//@   ensures localhost_refused: clientType == exported.Localhost ==> err != nil && world(ctx) == old(world(ctx))
+//@   ensures only_client_prefix: onlyPrefixChanged(withKV(old(world(ctx)), k.storeService, set(S0, types.KeyNextClientSequence, be64((next + 1) % 18446744073709551616))), world(ctx), "clients/" + id + "/") || clientType == exported.Localhost
+//@   ensures active_after: err == nil ==> exists mm iface :: lcStatus(mm, world(ctx), id) == exported.Active
+
+// ---- status gates (C21): every use of a client through the keeper requires the module's status to be Active
+
+//@ contract (*Keeper).GetClientStatus
+//@   let m = nth(k.Route(ctx, clientID), 0)
+//@   let rerr = nth(k.Route(ctx, clientID), 1)
+//@   ensures result == ite(rerr != nil, exported.Unauthorized, lcStatus(m, world(ctx), clientID))
+
+//@ contract (*Keeper).VerifyMembership
+//@   let m = nth(k.Route(ctx, clientID), 0)
+//@   let rerr = nth(k.Route(ctx, clientID), 1)
+//@   modifies world(ctx)
+//@   ensures routed: err == nil ==> rerr == nil
+//@   ensures active: err == nil ==> lcStatus(m, old(world(ctx)), clientID) == exported.Active
+//@   ensures verified: err == nil ==> LCMembership(m, old(world(ctx)), clientID, height, delayTimePeriod, delayBlockPeriod, str(proof), path, str(value))
+//@   ensures confined: onlyPrefixChanged(old(world(ctx)), world(ctx), "clients/" + clientID + "/")
+//@   ensures inactive_unchanged: rerr != nil || lcStatus(m, old(world(ctx)), clientID) != exported.Active ==> err != nil && world(ctx) == old(world(ctx))
+
+//@ contract (*Keeper).VerifyNonMembership
+//@   let m = nth(k.Route(ctx, clientID), 0)
+//@   let rerr = nth(k.Route(ctx, clientID), 1)
+//@   modifies world(ctx)
+//@   ensures routed: err == nil ==> rerr == nil
+//@   ensures active: err == nil ==> lcStatus(m, old(world(ctx)), clientID) == exported.Active
+//@   ensures verified: err == nil ==> LCNonMembership(m, old(world(ctx)), clientID, height, delayTimePeriod, delayBlockPeriod, str(proof), path)
+//@   ensures confined: onlyPrefixChanged(old(world(ctx)), world(ctx), "clients/" + clientID + "/")
+//@   ensures inactive_unchanged: rerr != nil || lcStatus(m, old(world(ctx)), clientID) != exported.Active ==> err != nil && world(ctx) == old(world(ctx))
+
+//@ contract (*Keeper).UpdateClient
+//@   let m = nth(k.Route(ctx, clientID), 0)
+//@   let rerr = nth(k.Route(ctx, clientID), 1)
+//@   modifies world(ctx)
+//@   ensures active: err == nil ==> rerr == nil && lcStatus(m, old(world(ctx)), clientID) == exported.Active
+//@   ensures verified: err == nil ==> LCMsgVerified(m, old(world(ctx)), clientID, clientMsg)
+//@   ensures confined: onlyPrefixChanged(old(world(ctx)), world(ctx), "clients/" + clientID + "/")
+//@   ensures inactive_unchanged: rerr != nil || lcStatus(m, old(world(ctx)), clientID) != exported.Active ==> err != nil && world(ctx) == old(world(ctx))
+//@   ensures unverified_unchanged: err != nil ==> world(ctx) == old(world(ctx))
+
+//@ contract (*Keeper).UpgradeClient
+//@   let m = nth(k.Route(ctx, clientID), 0)
+//@   let rerr = nth(k.Route(ctx, clientID), 1)
+//@   modifies world(ctx)
+//@   ensures active: err == nil ==> rerr == nil && lcStatus(m, old(world(ctx)), clientID) == exported.Active
+//@   ensures verified: err == nil ==> LCUpgradeVerified(m, old(world(ctx)), clientID, str(upgradedClient), str(upgradedConsState), str(upgradeClientProof), str(upgradeConsensusStateProof))
+//@   ensures confined: onlyPrefixChanged(old(world(ctx)), world(ctx), "clients/" + clientID + "/")
+//@   ensures inactive_unchanged: rerr != nil || lcStatus(m, old(world(ctx)), clientID) != exported.Active ==> err != nil && world(ctx) == old(world(ctx))
+
+//@ contract (*Keeper).RecoverClient
+//@   let m = nth(k.Route(ctx, subjectClientID), 0)
+//@   let rerr = nth(k.Route(ctx, subjectClientID), 1)
+//@   modifies world(ctx)
+//@   ensures subject_not_active: err == nil ==> rerr == nil && lcStatus(m, old(world(ctx)), subjectClientID) != exported.Active
+//@   ensures substitute_active: err == nil ==> lcStatus(m, old(world(ctx)), substituteClientID) == exported.Active
+//@   ensures recovered: err == nil ==> LCRecovered(m, old(world(ctx)), subjectClientID, substituteClientID)
+//@   ensures strictly_higher_substitute: err == nil ==> !lcLatestHeight(m, old(world(ctx)), subjectClientID).GTE(lcLatestHeight(m, old(world(ctx)), substituteClientID))
+//@   ensures confined_to_subject: onlyPrefixChanged(old(world(ctx)), world(ctx), "clients/" + subjectClientID + "/")
